@@ -349,11 +349,11 @@ pub fn c14_write(ctx: &Ctx) -> Outcome {
 pub fn c14(ctx: &Ctx) -> (CheckMeta, Outcome) {
     let mut out = crate::props::readers::c14_read(ctx);
     out.merge(c14_write(ctx));
-    out.merge(c14_grid(ctx));
+    out.merge(wrapper_grid(ctx, "C14"));
     let meta = CheckMeta {
         property: "C14".into(),
         level: "model_checking".into(),
-        rule: "the reader BFS (to the fixpoint) and the writer BFS (depth 3) are re-run with the object wrapped in CountBitReader/CountBitWriter and DbgBitReader/DbgBitWriter; alphabet = every trait method reachable through the wrapper: read_bits/peek/skip/unary, the parameterless gamma/delta/zeta methods, every table-parameterised variant (which reach the stream through the wrapper's peek_bits/skip_bits_after_peek), omega, pi, rice, golomb, exp-golomb, minimal binary, vbyte, copy_to/copy_from, flush; oracle: values, delivered words and positions identical to the unwrapped model; bits_read = bits consumed since the wrapper was created (= inner bit_pos when created at 0; the wrapper is also created on a reader that has already consumed 13 bits, and seeks through the wrapper are explored to depth 3 with the positions checked) and bits_written = bits written by operations, after EVERY transition including flushes; plus a grid through the Count wrappers: every code x parameter of the C03 grid (zeta/pi/rice/exp-golomb 0..=63, Golomb and minimal-binary moduli up to 2^64-1, vbyte) x its boundary values (every 2^i-2..2^i+2, length steps, maxima), written through CountBitWriter after 5 pending bits and read through CountBitReader (every table variant the reader admits) at bits 0 and 5: value, position and counter".into(),
+        rule: "the reader BFS (to the fixpoint) and the writer BFS (depth 3) are re-run with the object wrapped in CountBitReader/CountBitWriter and DbgBitReader/DbgBitWriter; alphabet = every trait method reachable through the wrapper: read_bits/peek/skip/unary, the parameterless gamma/delta/zeta methods, every table-parameterised variant (which reach the stream through the wrapper's peek_bits/skip_bits_after_peek), omega, pi, rice, golomb, exp-golomb, minimal binary, vbyte, copy_to/copy_from, flush; oracle: values, delivered words and positions identical to the unwrapped model; bits_read = bits consumed since the wrapper was created (= inner bit_pos when created at 0; the wrapper is also created on a reader that has already consumed 13 bits, and seeks through the wrapper are explored to depth 3 with the positions checked) and bits_written = bits written by operations, after EVERY transition including flushes; plus a grid through the Count wrappers: every code x parameter of the C03 grid (zeta/pi/rice/exp-golomb 0..=63, Golomb and minimal-binary moduli up to 2^64-1, vbyte) x its boundary values (every 2^i-2..2^i+2, length steps, maxima), written through CountBitWriter and DbgBitWriter after 5 pending bits (returned length, counter, bytes delivered) and read through CountBitReader (every table variant the reader admits) at bits 0 and 5: value, position and counter".into(),
         assumptions: vec!["flush padding is not counted as written bits (flush reports pending bits, which were counted when written)".into()],
     };
     (meta, out)
@@ -524,7 +524,7 @@ pub fn c12_alignment(ctx: &Ctx) -> Outcome {
 /// C14 grid: the wrappers compute their counters from the length functions of the codes, so the
 /// counters are compared on the whole (code, parameter, boundary value) grid, not only on the few
 /// codes of the state-space alphabets.
-pub fn c14_grid(ctx: &Ctx) -> Outcome {
+pub fn wrapper_grid(ctx: &Ctx, prop: &'static str) -> Outcome {
     use crate::model::{encode, ref_len, Bits};
     use crate::rd::{make_reader, ROp};
     use crate::rdsys::{explore as rexplore, RdModel, RdRun};
@@ -541,7 +541,7 @@ pub fn c14_grid(ctx: &Ctx) -> Outcome {
             let kinds = kinds.clone();
             tasks.push(Box::new(move || {
                 let mut out = Outcome::new();
-                let cfg = format!("{}/count-grid", e.name());
+                let cfg = format!("{}/wrapper-grid", e.name());
                 out.cov.configs.insert(cfg.clone());
                 let _ = ci;
                 for code in chunk {
@@ -550,39 +550,62 @@ pub fn c14_grid(ctx: &Ctx) -> Outcome {
                         if len > 300 {
                             continue;
                         }
-                        // write side
-                        let mut w = make_rec_writer(e, 64, "count");
-                        let o1 = w.apply(&WOp::WriteBits { v: 0b10110, n: 5 });
-                        let o2 = w.apply(&WOp::Code { code, v });
-                        let c = w.counter();
-                        out.cov.evaluations += 1;
-                        out.cov.nontrivial += 1;
-                        let bad = match (&o1, &o2) {
-                            (WObs::Ret(5), WObs::Ret(n)) if *n == len => {
-                                if c == Some(5 + len as u64) {
-                                    None
-                                } else {
-                                    Some(("counter", format!("bits_written = {:?} after 5 bits and a {}-bit codeword", c, len)))
+                        // write side: through both wrappers; returned length, counter, and the bytes that
+                        // reach the backend (the code writers are blanket implementations over BitWrite, and
+                        // the wrappers are BitWrite implementors of their own)
+                        for wrapper in ["count", "dbg"] {
+                            let mut w = make_rec_writer(e, 64, wrapper);
+                            let ops = [WOp::WriteBits { v: 0b10110, n: 5 }, WOp::Code { code, v }, WOp::WriteBits { v: 0b1011001, n: 7 }, WOp::Flush];
+                            let o1 = w.apply(&ops[0]);
+                            let o2 = w.apply(&ops[1]);
+                            let c = w.counter();
+                            out.cov.evaluations += 1;
+                            out.cov.nontrivial += 1;
+                            let mut bad = match (&o1, &o2) {
+                                (WObs::Ret(5), WObs::Ret(n)) if *n == len => {
+                                    if wrapper == "dbg" || c == Some(5 + len as u64) {
+                                        None
+                                    } else {
+                                        Some(("counter", format!("bits_written = {:?} after 5 bits and a {}-bit codeword", c, len)))
+                                    }
+                                }
+                                (_, WObs::Panic(m)) => Some(("panic", m.clone())),
+                                _ => Some(("value", format!("write returned {:?}, the codeword has {} bits", o2, len))),
+                            };
+                            if matches!(o2, WObs::Panic(_)) || matches!(o1, WObs::Panic(_)) {
+                                w.forget();
+                            } else {
+                                let o3 = w.apply(&ops[2]);
+                                let o4 = w.apply(&ops[3]);
+                                if matches!(o3, WObs::Panic(_)) || matches!(o4, WObs::Panic(_)) {
+                                    w.forget();
+                                    bad = bad.or(Some(("panic", format!("{:?} {:?}", o3, o4))));
+                                } else if bad.is_none() {
+                                    let (mbits, _, _) = model_history(&ops, e, 64);
+                                    let want = mbits.to_bytes(e, 64);
+                                    let got = w.delivered();
+                                    if got != want {
+                                        bad = Some(("bytes", format!("bytes delivered {} expected {}", crate::util::hex(&got), crate::util::hex(&want))));
+                                    }
                                 }
                             }
-                            (_, WObs::Panic(m)) => Some(("panic", m.clone())),
-                            _ => Some(("value", format!("write returned {:?}, the codeword has {} bits", o2, len))),
-                        };
-                        if matches!(o2, WObs::Panic(_)) {
-                            w.forget();
-                        }
-                        if let Some((symptom, detail)) = bad {
-                            if out.violations.len() < 24 {
-                                out.violations.push(Violation {
-                                    property: "C14".into(),
-                                    system: "writer".into(),
-                                    config: format!("{}/w64/count", e.name()),
-                                    op_class: "code_write".into(),
-                                    symptom: symptom.into(),
-                                    detail: format!("{} of {} through CountBitWriter: {}", code.name(), v, detail),
-                                    replay: replay_doc(e, 64, "count", "rec", "flush", &[WOp::WriteBits { v: 0b10110, n: 5 }, WOp::Code { code, v }]),
-                                });
+                            if let Some((symptom, detail)) = bad {
+                                if out.violations.len() < 24 {
+                                    out.violations.push(Violation {
+                                        property: prop.into(),
+                                        system: "writer".into(),
+                                        config: format!("{}/w64/{}", e.name(), wrapper),
+                                        op_class: "code_write".into(),
+                                        symptom: symptom.into(),
+                                        detail: format!("{} of {} through the {} wrapper: {}", code.name(), v, wrapper, detail),
+                                        replay: replay_doc(e, 64, wrapper, "rec", "flush", &ops[..2]),
+                                    });
+                                }
                             }
+                        }
+                        if prop != "C14" {
+                            // the read side is C14's business only
+                            continue;
                         }
                         // read side
                         let mut bits = Bits::new();
@@ -601,7 +624,7 @@ pub fn c14_grid(ctx: &Ctx) -> Outcome {
                         for kind in &kinds {
                             let model = RdModel { bits: Bits::from_bytes(&bytes, e), e, zx: false, limit: bits.len(), tables_ok: diag[*kind] };
                             let rd = make_reader(e, kind, "memstrict", "count", &bytes);
-                            let run = RdRun { property: "C14", model: &model, image: &bytes, alphabet: &alphabet, max_states: 1000, check_counter: true, max_depth: 2 };
+                            let run = RdRun { property: prop, model: &model, image: &bytes, alphabet: &alphabet, max_states: 1000, check_counter: true, max_depth: 2 };
                             out.merge(rexplore(&run, rd));
                         }
                     }
